@@ -1,6 +1,7 @@
 use crate::core::{Ctx, Engine, Tier};
 use std::collections::{BTreeMap, HashSet};
 
+pub mod actions;
 pub mod docs;
 pub mod hist;
 pub mod links;
@@ -20,6 +21,8 @@ pub fn get(id: &str) -> Option<Box<dyn Engine>> {
         "C11" => Some(Box::new(sched::C11)),
         "C14" => Some(Box::new(names::C14)),
         "C15" => Some(Box::new(paths::C15)),
+        "C09" => Some(Box::new(actions::C09)),
+        "C10" => Some(Box::new(actions::C10)),
         "C08" => Some(Box::new(rename::C08)),
         "C13" => Some(Box::new(positions::C13)),
         "C05" => Some(Box::new(links::C05)),
